@@ -439,6 +439,8 @@ def r17_6(ctx: Ctx) -> None:
 
 
 def run(ctx: Ctx) -> None:
+    from . import c10 as _c10
+    _c10.r10_12(ctx)  # any FILETIME in 0..2^64-1 must be listable
     shared.layout_agreement(ctx, "R17.10")
     from . import c06 as _c06
     _c06.r06_13(ctx, rule="R17.9")
